@@ -283,6 +283,8 @@ impl Prop for C04 {
                     xor_key: None,
                     magic_mode: 0,
                     xor_symlink: false,
+                    link_chain: false,
+                    side_xor: None,
                     extra_files: vec![],
                 }];
                 for r in scn.runs.iter_mut() {
